@@ -164,7 +164,8 @@ static void run_case (char *id, char *mode, char *engine, char *target, char *mi
   MIR_load_external (ctx, "outs", c05_outs);
   MIR_load_external (ctx, "helper", c06_helper);
   MIR_load_external (ctx, "memset", memset);
-  int gen_p = strncmp (engine, "gen", 3) == 0, lazy_p = strcmp (engine, "lazy") == 0;
+  int gen_p = strncmp (engine, "gen", 3) == 0, lazy_p = strncmp (engine, "lazy", 4) == 0;
+  int lazybb_p = strcmp (engine, "lazybb") == 0;
   char *dump = NULL;
   size_t dump_len = 0;
   FILE *dump_f = NULL;
@@ -186,7 +187,7 @@ static void run_case (char *id, char *mode, char *engine, char *target, char *mi
     MIR_link (ctx, MIR_set_gen_interface, NULL);
     addr = MIR_gen (ctx, f);
   } else if (lazy_p) {
-    MIR_link (ctx, MIR_set_lazy_gen_interface, NULL);
+    MIR_link (ctx, lazybb_p ? MIR_set_lazy_bb_gen_interface : MIR_set_lazy_gen_interface, NULL);
     addr = f->addr;
   } else {
     MIR_link (ctx, MIR_set_interp_interface, NULL);
